@@ -95,7 +95,8 @@ Expected == CASE hd.mode = "full"    -> TreeDef(hd.cfg, XQ(win))
 Scale(cfg, want) ==
     LET mag == QMax(QOne, QFrac(maxabs, U)) IN
     CASE cfg.k = "Rsi" -> QInt(100)
-      [] cfg.k \in {"MyRSI", "HLNormalizer", "CorrelationTrendIndicator", "NoiseEliminationTechnology", "Vsct"} -> QInt(2)
+      [] cfg.k \in {"MyRSI", "HLNormalizer", "CorrelationTrendIndicator", "NoiseEliminationTechnology"} -> QInt(2)
+      [] cfg.k = "Vsct" -> FToQ(FDiv(FFromInt(2 * (cfg.n - 1)), FSqrt(FFromInt(cfg.n))))      \* width of [-(N-1)/sqrt N, (N-1)/sqrt N]
       [] cfg.k \in {"BinaryEntropy", "LaguerreRSI", "Drawdown", "LnReturn"} -> QOne
       [] cfg.k \in {"Vst", "Roc", "CenterOfGravity", "Cumulative"} -> QMax(mag, QAbs(want))
       [] OTHER -> mag
